@@ -179,6 +179,7 @@ def c06_options(gps):
             opts.append(dict(base, shift=1))
             if S.can_weak(gps[a], gps[b]):
                 opts.append(dict(base, weak=True))
+                opts.append(dict(base, weak=True, shift=1))  # both flags on one connection: the shift resolves every cycle
             if a != b:
                 opts.append({"src": C06_SIDS[a], "dst": C06_SIDS[b], "async": True})
     return opts
@@ -289,7 +290,7 @@ def c06(tier, seed):
         "states": states, "transitions": trans, "traces_validated_against_impl": len(rows),
         "samples": [rows[5], next((r for r in rows if r["out"] == "ScenarioError"), rows[0])],
         "evaluations": len(rows), "distinct_nontrivial": len(rows),
-        "rule": f"every connection multigraph (kinds plain / time-shifted / weak / async_requests, every ordered pair incl. self) over 2 simulators with <= "
+        "rule": f"every connection multigraph (kinds plain / time-shifted / weak / weak+time-shifted / async_requests, every ordered pair incl. self) over 2 simulators with <= "
                 f"{4 if tier == 'thorough' else 3} and over 3 simulators with <= {3 if tier == 'thorough' else 2} distinct connections, in every placement "
                 f"(up to renaming) in the group tree root/[1]/[1,2]/[3] ({nexh} scenarios, exhaustive), plus {nsample} seeded scenarios of 3-4 simulators with 3-5 connections; "
                 "each is built with the real World/connect and run(until=1); one row per scenario, all distinct",
@@ -737,6 +738,7 @@ RUN["C18"] = c18
 
 # --------------------------------------------------------------------------- C15
 
+C15_FAILS = ["none", "ValueError", "RuntimeError", "KeyError"]
 C15_VERSIONS = ["1", "2", "2.0", "2.1", "2.1.9", "2.2", "2.2.0", "2.10", "3", "3.0", "3.0.16", "3.1", "4", "4.0", "10", None]
 
 
@@ -757,7 +759,7 @@ def _c15_explicit(ver, mode):
     return "2.5" if (ver or "1") != "2.5" else "2.6"
 
 
-def _c15_inproc(ver, explicit, kind, hastype):
+def _c15_inproc(ver, explicit, kind, hastype, fail=None):
     import contextlib
     import io
     import warnings
@@ -767,6 +769,7 @@ def _c15_inproc(ver, explicit, kind, hastype):
     from mosaik.exceptions import ScenarioError
 
     stubs.CONFIG["meta"] = _c15_meta(ver, hastype)
+    stubs.CONFIG["fail"] = fail
     del stubs.LOG[:]
     cfg = {"python": "harness.stubs:" + ("V3SigDefault" if kind == "inproc_v3" else "OldSig")}
     exp = _c15_explicit(ver, explicit)
@@ -836,10 +839,25 @@ def c15_rows():
     def steps(log):
         return [x[1][0] for x in log if x[0] == "step"]
 
+    ref_fail = {exc: _c15_inproc("3.0", "absent", "inproc_v3", True, fail=[2, exc]) for exc in C15_FAILS if exc != "none"}
     for ver in C15_VERSIONS:
         for explicit in ("absent", "equal", "different"):
             for kind in ("remote", "inproc_v3", "inproc_old"):
-                for hastype in (True, False):
+                for hastype, fail in [(True, "none"), (False, "none")] + ([(True, e) for e in C15_FAILS if e != "none"] if kind != "remote" and explicit == "absent" else []):
+                    if fail != "none":
+                        # the simulator's own step raises at its second call: the adapter must not turn that into further requests
+                        r = _c15_inproc(ver, explicit, kind, hastype, fail=[2, fail])
+                        log = r["log"]
+                        st_ = [x for x in log if x[0] == "step"]
+                        rows.append({
+                            "v": [int(x) for x in ver.split(".")] if ver is not None else [1], "hasv": ver is not None, "vs": ver or "",
+                            "explicit": explicit, "kind": kind, "hastype": hastype, "out": r["out"], "msg": r["msg"], "fail": fail,
+                            "init_tr": True, "setup_done": True, "step_nargs": 0, "type_seen": r.get("type_seen", ""),
+                            "nargs_all": sorted({len(x[1]) for x in st_}),
+                            "sameobs": steps(log) == steps(ref_fail[fail]["log"]), "failed_as_injected": r["out"] == "other" and "injected failure" in r["msg"],
+                            "requests": [x[0] for x in log][:12],
+                        })
+                        continue
                     r = _c15_remote(ver, explicit, hastype) if kind == "remote" else _c15_inproc(ver, explicit, kind, hastype)
                     log = r["log"]
                     init = next((x for x in log if x[0] == "init"), None)
@@ -855,6 +873,7 @@ def c15_rows():
                         "explicit": explicit, "kind": kind, "hastype": hastype, "out": r["out"], "msg": r["msg"],
                         "init_tr": init_tr, "setup_done": any(x[0] == "setup_done" for x in log),
                         "step_nargs": len(step[1]) if step else 0, "type_seen": r.get("type_seen", ""), "sameobs": bool(same),
+                        "fail": "none", "nargs_all": sorted({len(x[1]) for x in log if x[0] == "step"}), "failed_as_injected": False,
                         "requests": [x[0] for x in log][:12],
                     })
     return rows
@@ -873,7 +892,7 @@ def c15(tier, seed):
         "samples": [rows[3], next(r for r in rows if r["out"] == "ok" and r["vs"] == "2.1" and r["kind"] == "remote")],
         "evaluations": len(rows), "distinct_nontrivial": len(rows),
         "rule": f"api_version in {C15_VERSIONS} x explicit api_version (absent / equal / different) x (remote stub behind the shipped RemoteProxy over fake streams, "
-                "in-process stub with v3 signatures, in-process stub with old signatures) x meta with/without type; each row = world.start + create + run(until=3) "
+                "in-process stub with v3 signatures, in-process stub with old signatures) x meta with/without type x (in-process) the stub's second step raising ValueError / RuntimeError / KeyError; each row = world.start + create + run(until=3) "
                 "with the exact requests the stub received; compared with the run of a 3.0 stub",
         "exhaustive": True,
         "outcomes": dict(collections.Counter((r["kind"], r["out"]) .__str__() for r in rows)),
